@@ -292,8 +292,10 @@ def rule_cli_generate(ctx):
                     b = b.get('e') or b.get('expr')
                 if b.get('k') == 'lit':
                     cval = b['lit']['v']
-        if P.fmt_string(w['text']) != '{}':
-            obs.append(bad('OUT-CONTENT', 'generate/write-format', 'file is written with format %r' % P.fmt_string(w['text']), w.get('sp', ''), 'extra text in the file'))
+        wplan = P.fmt_plan(w['text'], max(len(wargs) - 1, 0))
+        wfs = wplan[0] if wplan is not None else P.fmt_string(w['text'])
+        if wfs != '{}':
+            obs.append(bad('OUT-CONTENT', 'generate/write-format', 'file is written with format %r' % wfs, w.get('sp', ''), 'extra text in the file'))
         if hdr_ok and tok_ok and cval == '#![allow(clippy::all, warnings)]':
             obs.append(ok('OUT-CONTENT', 'generate/content', 'file content = warning-suppression header + "\\n" + library token stream', w.get('sp', '')))
         else:
